@@ -212,6 +212,67 @@ def task_specs() -> list[Spec]:
     ]
 
 
+def multivar_specs() -> list[Spec]:
+    """the multi-variable classes (C13 / C14: "multi / binary variables delegate to children"): construction of the children, correct / decode over the
+    children, size, bounds, validators - parametric in the scalar rules correct1 / decode1 / sv_bounds of the hand model, which the scalar specs tie"""
+    import ast as _ast
+    m = "models.py"
+    SV, COORD, DV, BS, C = "svar", "coord", "dval", "bside", "C"
+    CH = ("self._children", "children", LIST(SV))
+    VAL = ("value", "value", LIST(COORD))
+    LO, HI = ("self.lower_bounds", "lower_bounds", LIST(X)), ("self.upper_bounds", "upper_bounds", LIST(X))
+    child_calls = {"v.correct": lambda arg: (f"(correct1 v {arg(0)[0]})", RES(COORD)), "v.decode": lambda arg: (f"(decode1 v {arg(0)[0]})", RES(DV)),
+                   "v.get_bounds": lambda arg: ("(sv_bounds v)", TUP(BS, BS))}
+    init_attrs = {"allow_kwargs": True, "skip_stmts": ("super().__init__(**kwargs)",)}
+
+    def cont_ctor(kws, tr):
+        if set(kws) != {"name", "lower_bound", "upper_bound"}: raise Unsupported("ContinuousVariable(...) keywords")
+        (lo, tlo), (hi, thi) = tr(kws["lower_bound"]), tr(kws["upper_bound"])
+        if tlo != X or thi != X: raise Unsupported("ContinuousVariable bounds type")
+        return (f"(SCont {lo} {hi})", SV)
+
+    def disc_ctor(kws, tr):
+        if set(kws) != {"name", "choices"}: raise Unsupported("DiscreteVariable(...) keywords")
+        if _ast.unparse(kws["choices"]) == "[0, 1]": return ("(SDisc 2)", SV)
+        c, tc = tr(kws["choices"])
+        if tc == RES(LIST(C)): return (f"(option_map (fun c_ => SDisc (length c_)) {c})", RES(SV))
+        if tc == LIST(C): return (f"(SDisc (length {c}))", SV)
+        raise Unsupported("DiscreteVariable choices type")
+
+    out = []
+    for cls, k in (("ContinuousMultiVariable", "cmv"), ("MultiObjectiveVariable", "mov")):
+        out += [
+            Spec(f"gen_{k}_get_bounds", m, cls, "get_bounds", [LO, HI], TUP(LIST(X), LIST(X))),
+            Spec(f"gen_{k}_children", m, cls, "__init__", [LO, HI], LIST(SV), state="self._children", attrs={**init_attrs, "kwcalls": {"ContinuousVariable": cont_ctor}}),
+            Spec(f"gen_{k}_validate", m, cls, "validate_bounds", [LO, HI], "unit", fallible=True, attrs={"self_value": ("tt", "unit")}),
+            Spec(f"gen_{k}_size", m, cls, "size", [LO], NAT),
+        ]
+    out += [
+        Spec("gen_dmv_children", m, "DiscreteMultiVariable", "__init__", [("self.choices", "choices", LIST(LIST(C)))], LIST(SV), fallible=True, state="self._children",
+             attrs={**init_attrs, "kwcalls": {"DiscreteVariable": disc_ctor}}),
+        Spec("gen_dmv_get_bounds", m, "DiscreteMultiVariable", "get_bounds", [CH], TUP(LIST(BS), LIST(BS)), attrs={"calls": child_calls}),
+        Spec("gen_dmv_size", m, "DiscreteMultiVariable", "size", [("self.choices", "choices", LIST(LIST(C)))], NAT),
+        Spec("gen_bin_children", m, "BinaryVariable", "__init__", [("self.n_vars", "n_vars", NAT)], LIST(SV), state="self._children",
+             attrs={**init_attrs, "kwcalls": {"DiscreteVariable": disc_ctor}}),
+        Spec("gen_bin_get_bounds", m, "BinaryVariable", "get_bounds", [("self.n_vars", "n_vars", NAT)], TUP(LIST(BS), LIST(BS)),
+             attrs={"idioms": {"np.zeros(self.n_vars)": ("(repeat (BSNum (xint 0)) {self.n_vars})", LIST(BS)),
+                               "(2 - np.finfo(float).eps) * np.ones(self.n_vars)": ("(repeat (BSNum BIN_HI) {self.n_vars})", LIST(BS))}}),
+        Spec("gen_bin_size", m, "BinaryVariable", "size", [("self.n_vars", "n_vars", NAT)], NAT),
+    ]
+    for cls, k in (("ContinuousMultiVariable", "cmv"), ("MultiObjectiveVariable", "mov"), ("DiscreteMultiVariable", "dmv"), ("BinaryVariable", "bin")):
+        out += [
+            Spec(f"gen_{k}_correct", m, cls, "correct", [CH, VAL], LIST(COORD), fallible=True, attrs={"calls": child_calls}),
+            Spec(f"gen_{k}_decode", m, cls, "decode", [CH, VAL], LIST(DV), fallible=True, attrs={"calls": child_calls}),
+            Spec(f"gen_{k}_get", m, cls, "get", [CH], LIST(SV)),
+        ]
+    for cls, k in (("ContinuousVariable", "cont"), ("ContinuousMultiVariable", "cmv"), ("MultiObjectiveVariable", "mov"), ("DiscreteVariable", "disc"),
+                   ("DiscreteMultiVariable", "dmv"), ("BinaryVariable", "bin"), ("PermutationVariable", "perm")):
+        out.append(Spec(f"gen_{k}_has_children", m, cls, "has_children", [], BOOL))
+    for cls, k in (("ContinuousVariable", "cont"), ("DiscreteVariable", "disc"), ("PermutationVariable", "perm")):
+        out.append(Spec(f"gen_{k}_size", m, cls, "size", [], NAT))
+    return out
+
+
 def emit_group(repo: Path, fname: str, imports: str, section_vars: str, specs: list[Spec], status: dict,
                extra: str = "") -> None:
     tr = Translator(repo, specs)
@@ -262,6 +323,8 @@ def regenerate(repo: Path) -> dict:
                "Variable V : Type.\nVariable valid : V -> bool.\nVariable serial : V.\n", multi_specs(), status)
     emit_group(repo, "GenTask.v", "From Coq Require Import List ZArith Bool Arith.\nFrom PV Require Import Xnum Select PyLib Argsort Vars.\nImport ListNotations.\n",
                "", task_specs(), status)
+    emit_group(repo, "GenMultiVar.v", "From Coq Require Import List ZArith Bool Arith.\nFrom PV Require Import Xnum Select PyLib Argsort Vars.\nImport ListNotations.\n",
+               "Variable C : Type.\n", multivar_specs(), status)
     import ast as _ast
     try:
         mt = _ast.parse((repo / "pyvolutionary" / "models.py").read_text())
